@@ -235,7 +235,7 @@ def normalise(g):
             inner = normalise(x[1])
             if inner:
                 out.append(('loop', inner))
-        elif x[0] == 'alt':
+        elif x[0] in ('alt', 'alt!'):
             arms = [normalise(a) for a in x[1]]
             # panicking / erroring arms contribute nothing: drop empty duplicates
             if not any(arms):
